@@ -61,7 +61,40 @@ def date_classes(tier):
     return out, st
 
 
-def check_rule(ck, rs, name, f, key, P, date, seen):
+def closure_sig(fn):
+    """plain constants captured by the wrapper (base, direction, offset): two wrappers of the same stub with the
+    same captured constants are the same function, so one proof serves both"""
+    out = []
+    for c in (fn.__closure__ or ()):
+        try:
+            v = c.cell_contents
+        except ValueError:
+            continue
+        if isinstance(v, (int, float, str, bool, type(None), numpy.number)):
+            out.append(repr(v))
+    return tuple(sorted(out))
+
+
+def joint_wrappers(F, P, rr, reverse):
+    """the production call shape: ONE _add_rounding_to_functions call over the whole function dict (in the loader's
+    order, or reversed), stubs in place of the rounded rules that have a specification at this date"""
+    from _gettsim.interface import _add_rounding_to_functions
+    fns = {}
+    for nm in (reversed(list(F)) if reverse else list(F)):
+        if nm in rr:
+            f, key = rr[nm]
+            if not (key in P and nm in P[key].get("rounding", {})):
+                continue          # marked without a spec: the production call raises (checked per rule)
+            fns[nm] = make_stub(nm, f)
+        else:
+            fns[nm] = F[nm]
+    try:
+        return _add_rounding_to_functions(fns, P)
+    except Exception:   # noqa: BLE001 -- decided per rule below
+        return {}
+
+
+def check_rule(ck, rs, name, f, key, P, date, seen, joint=()):
     from _gettsim.interface import _add_rounding_to_functions, _round_and_partial_parameters_to_functions
     spec = rs.rounding(key, date).get(name) if key in rs_groups(rs) else None
     stub = make_stub(name, f)
@@ -89,10 +122,33 @@ def check_rule(ck, rs, name, f, key, P, date, seen):
     ck.discharged += 1
     base, direction = spec["base"], spec["direction"]
     offset = spec.get("to_add_after_rounding", 0)
-    sig = (f.__name__, repr(base), direction, repr(offset), repr(P[key]["rounding"].get(name)))
-    if sig in seen:
-        return
-    seen.add(sig)
+    variants = [("", wrapped)] + [(how, j[name]) for how, j in joint if name in j]
+    for how, w in variants:
+        sig = (f.__name__, repr(base), direction, repr(offset), repr(P[key]["rounding"].get(name)), closure_sig(w))
+        if sig in seen:
+            continue
+        seen.add(sig)
+        _check_wrapper(ck, name, f, w, how, spec, date, label)
+    # rounding=False => unrounded function object is used as is
+    x = R.Sym(z3.Real("x"), float)
+    ck.obligations += 1
+    proc = _round_and_partial_parameters_to_functions({name: stub}, P, rounding=False)[name]
+    if proc is stub:
+        ck.discharged += 1
+    else:
+        vv, _ = R.run(proc, kwargs={"x": x})
+        r2, _ = ck.solve([R.term_of(vv, float) != x.t])
+        if r2 == "unsat":
+            ck.discharged += 1
+        else:
+            ck.violation(["rounding-false-changes-value", name], f"{label}: rounding=False still changes the value", {"kind": "nospec", "name": name, "date": str(date)})
+
+
+def _check_wrapper(ck, name, f, wrapped, how, spec, date, label):
+    base, direction = spec["base"], spec["direction"]
+    offset = spec.get("to_add_after_rounding", 0)
+    if how:
+        label = f"{label} [{how}]"
     x = R.Sym(z3.Real("x"), float)
     v, ctx = R.run(wrapped, kwargs={"x": x})
     ck.functions |= ctx.funcs
@@ -126,27 +182,13 @@ def check_rule(ck, rs, name, f, key, P, date, seen):
         ck.nontrivial.add((lab, f.__name__, repr(base), direction, repr(offset)))
         if res == "sat":
             xv = float(R.z3_to_fraction(m.eval(x.t, model_completion=True)))
-            rep = replay_value(name, date, xv)
+            rep = replay_value(name, date, xv, how)
             what = f"{label}: {lab} fails: unrounded {xv!r} -> {rep['rounded']!r}, YAML spec base={base} direction={direction} offset={offset}"
             if rep["fails"]:
                 ck.violation([lab, name, f"base={base},dir={direction},offset={offset}"], what,
-                             {"kind": "value", "name": name, "date": str(date), "x": xv})
+                             {"kind": "value", "name": name, "date": str(date), "x": xv, "how": how})
             else:
                 common.spurious("C10", what)
-    # rounding=False => unrounded function object is used as is
-    ck.obligations += 1
-    proc = _round_and_partial_parameters_to_functions({name: stub}, P, rounding=False)[name]
-    if proc is stub:
-        ck.discharged += 1
-    else:
-        vv, _ = R.run(proc, kwargs={"x": x})
-        r2, _ = ck.solve([R.term_of(vv, float) != x.t])
-        if r2 == "unsat":
-            ck.discharged += 1
-        else:
-            ck.violation(["rounding-false-changes-value", name], f"{label}: rounding=False still changes the value", {"kind": "nospec", "name": name, "date": str(date)})
-
-
 _GROUPS = None
 
 
@@ -158,7 +200,7 @@ def rs_groups(rs):
     return _GROUPS
 
 
-def replay_value(name, date, xv):
+def replay_value(name, date, xv, how=""):
     """real wrapper (through the real _add_rounding_to_functions on the real env) applied to a float array"""
     from _gettsim.interface import _add_rounding_to_functions
     from _gettsim.config import RESOURCE_DIR
@@ -168,7 +210,10 @@ def replay_value(name, date, xv):
     rs = ref.Resolver(RESOURCE_DIR / "parameters")
     spec = rs.rounding(key, date).get(name)
     stub = make_stub(name, f)
-    wrapped = _add_rounding_to_functions({name: stub}, P)[name]
+    if how:
+        wrapped = joint_wrappers(F, P, rounded_rules(F), "reversed" in how)[name]
+    else:
+        wrapped = _add_rounding_to_functions({name: stub}, P)[name]
     out = float(numpy.asarray(wrapped(numpy.array([xv])))[0])
     base, direction, off = spec["base"], spec["direction"], spec.get("to_add_after_rounding", 0)
     k = (out - off) / base
@@ -277,9 +322,11 @@ def _chunk(ck, items):
     for date, with_derived in items:
         P, F = gt.env(date)
         rr = rounded_rules(F)
+        joint = [("one call over all functions", joint_wrappers(F, P, rr, False)),
+                 ("one call over all functions, reversed order", joint_wrappers(F, P, rr, True))]
         for name, (f, key) in rr.items():
             n += 1
-            check_rule(ck, rs, name, f, key, P, date, seen)
+            check_rule(ck, rs, name, f, key, P, date, seen, joint)
         if with_derived:
             with_spec = [nm for nm, (f, key) in rr.items() if key in P and nm in P[key].get("rounding", {})]
             derived_not_rounded(ck, date, with_spec, seen_d)
@@ -320,7 +367,7 @@ def replay(path):
     d = json.load(open(path))["replay"]
     date = datetime.date.fromisoformat(d["date"])
     if d["kind"] == "value":
-        rep = replay_value(d["name"], date, d["x"])
+        rep = replay_value(d["name"], date, d["x"], d.get("how", ""))
         print(rep)
         return 1 if rep["fails"] else 0
     print("replay of kind", d["kind"], "= re-run the check")
